@@ -381,6 +381,6 @@ def body_extractor(ctx, case):
 
 
 UNITS = [
-    Unit("assign", "given", body=body_assign, strategy=strat_assign, quick=500, thorough=10000),
+    Unit("assign", "given", body=body_assign, strategy=strat_assign, quick=2400, thorough=24000, shards_quick=8),
     Unit("extractor", "given", body=body_extractor, strategy=strat_extractor, quick=300, thorough=5000),
 ]
